@@ -167,6 +167,9 @@ func (p *vparser) parse(v reflect.Value) {
 
 func parseInto(u *universe.UStruct, s string) reflect.Value {
 	pv := reflect.New(u.Type)
+	if s == "ZERO" { // replay lines written by the fuzz stage: a zero destination
+		return pv
+	}
 	p := &vparser{s: s}
 	p.parse(pv.Elem())
 	if p.i != len(s) {
